@@ -9,7 +9,7 @@ META = {
             'Observed: worker death, panic site, CPU time, peak allocation, Result vs diagnostics. distinct = hash(input bytes, tool, game); non-trivial = input has >= 20 bytes',
     'assumptions': ['the in-process pipeline wrappers are the CLI pipelines (a sample is re-executed through the real vtruth process and compared)',
                     '"loops forever" is restated as > 20 CPU-seconds for one input'],
-    'floors': {'generated_valid_accepted': 20, 'mutants': 100, 'hostile': 20, 'mapfile_cases': 20},
+    'floors': {'generated_valid_accepted': 20, 'mutants': 100, 'hostile': 20, 'mapfile_cases': 20, 'typed_matrix': 200},
     'profiles': {'quick': ('dev',), 'thorough': ('dev', 'release')},
 }
 SIZES = {'quick': 6000, 'thorough': 150000}
@@ -134,6 +134,13 @@ def mapfile_cases(rng):
         for _ in range(2):
             m, _k = mutate.mutate_text(rng, b)
             out.append(m.decode('utf-8', 'surrogateescape') if isinstance(m, bytes) else m)
+    # multi-byte characters at every kind of position (inside numbers, names, signatures, attribute lists, section headers)
+    rich = ['!anmmap\n!ins_names\n900 foo\n!ins_signatures\n900 Sz(bs=4;mask=0x77,7,16)f\n!ins_intrinsics\n901 Jmp()\n!gvar_names\n10000 MyReg\n!gvar_types\n10000 $\n!difficulty_flags\n0 E-\n!enum(name="foo")\n1 a\n',
+            '!eclmap\n!timeline_ins_signatures\n900 s(arg0;enum="EclSub")ff\n!ins_signatures\n901 m(len=32)\n']
+    for b in rich:
+        for _ in range(40):
+            i = rng.randrange(len(b) + 1)
+            out.append(b[:i] + rng.pick(['\u00e9', '\u65e5\u672c', '\u03b8', '\u202e', '\U0001f600']) + b[i:])
     return out
 
 def run_shard(ctx):
@@ -152,7 +159,17 @@ def run_shard(ctx):
         if i % ctx.nshards == ctx.shard: plan.append(('hostile', tool, game, text.encode('utf-8'), None, None, None, None, item[3] if len(item) > 3 else None))
     mfs = mapfile_cases(r)
     for i, m in enumerate(mfs):
-        if i % ctx.nshards == ctx.shard: plan.append(('mapfile', 'anm', 'th12', (MINI['anm'][0] % 'ins_900(1, 2, 3.0);').encode(), m))
+        if i % ctx.nshards == ctx.shard:
+            if m.startswith('!eclmap') and 'timeline' in m: plan.append(('mapfile', 'ecl', 'th07', b'void s0() {\n ins_901("abc");\n}\nscript timeline0 {\n ins_900(s0, 1.0, 2.0);\n}\n', m))
+            else: plan.append(('mapfile', 'anm', 'th12', (MINI['anm'][0] % 'ins_900(1, 2, 3.0);').encode(), m))
+    # the typing matrix of C09 (every operator/condition/count construct x operand types, well- and ill-typed): no cell may crash the compiler
+    from .. import typematrix as TM
+    for (tool, ir, fr, ir2, fr2) in (('anm', '$REG[10000]', '%REG[10004]', '$REG[10001]', '%REG[10005]'), ('ecl', '$REG[10000]', '%REG[10004]', '$REG[10001]', '%REG[10005]')):
+        mk = {'anm': '!anmmap', 'ecl': '!eclmap'}[tool]
+        for k, (tag, stmt, want) in enumerate(TM.cells(ir, fr, ir2, fr2, 'ins_900', 'ins_901')):
+            if k % ctx.nshards == ctx.shard and (ctx.tier != 'quick' or (k // ctx.nshards) % 2 == (0 if tool == 'anm' else 1)):
+                _w, text = TM.wrap(r, stmt, '$REG[10002]')
+                plan.append(('typed-matrix', tool, MINI[tool][1], (MINI[tool][0] % text).encode(), mk + '\n!ins_signatures\n900 S\n901 f\n'))
     corpus_dir = os.path.join(core.VERIF, 'corpus', 'C04')
     if os.path.isdir(corpus_dir):
         for i, name in enumerate(sorted(os.listdir(corpus_dir))):
@@ -182,7 +199,7 @@ def run_shard(ctx):
                   'text': data.decode('utf-8', 'surrogateescape'), 'mapfile': mapfile, 'class': cls}
         input_id = item[8] if len(item) > 8 else None
         v = crash.judge_exec(ctx, 'C04', job, resp, len(data), '%s compile -g %s (%s input)' % (core.TOOLBIN[tool], game, cls), replay, input_id=input_id, memory_clause=False)   # (memory exhaustion is part of C16's statement, not C04's; aborts are still observed)
-        ctx.count({'generated': 'generated', 'mutant': 'mutants', 'hostile': 'hostile', 'mapfile': 'mapfile_cases', 'corpus': 'corpus'}[cls])
+        ctx.count({'generated': 'generated', 'mutant': 'mutants', 'hostile': 'hostile', 'mapfile': 'mapfile_cases', 'corpus': 'corpus', 'typed-matrix': 'typed_matrix'}[cls])
         if cls == 'generated':
             ctx.count('generated_valid_accepted' if v == 'ok' else 'generated_rejected')
             if v == 'err': ctx.seen('generated_reject_reasons', '%s:%s: %s' % (item[6], game, core.norm_msg(core.headline(resp.get('diag', '')))[:70]))
